@@ -828,6 +828,19 @@ impl Model {
         }
         // another process interfered between the last chunk and the commit: the cache state is
         // what that process left, and the commit may fail with any error
+        // the writer's own key was removed (fully) between its last chunk and its commit: first
+        // the removal is judged, then the commit — the most recent event for the key
+        if matches!(s.interfere, Interfere::RemoveKeyFully | Interfere::RemoveKey) && s.streamed() && s.key.is_some() {
+            let (first, second) = match out {
+                Out::Pair(a, b) => (&**a, &**b),
+                o => return Err(format!("{what}: expected the results of the removal and of the commit, got {}", o.short())),
+            };
+            let rm = if s.interfere == Interfere::RemoveKeyFully { Op::RemoveOpts { key: s.key.unwrap(), fully: true } } else { Op::Remove { key: s.key.unwrap() } };
+            self.step_inner(ctx, &Step { op: rm, fl: Fl::Sync }, first, t0, t1).map_err(|e| format!("{what}: removal of the writer's key before its commit: {e}"))?;
+            let mut plain = s.clone();
+            plain.interfere = Interfere::None;
+            return self.step_write(ctx, &plain, second, t0, t1);
+        }
         let interfered = s.interfere != Interfere::None && s.streamed();
         if interfered {
             match s.interfere {
